@@ -83,6 +83,43 @@ def styles_for(sd):
             ("r", apidoc.Style(pathref=0.8, rnd=random.Random(sd + 6)))]
 
 
+def declared_things_stay(chk):
+    """small documents whose catalog is written out by hand (what the lines declare, nothing guessed): a declared TAG named like
+    a path tag keeps its title, description and interactions; a Description that repeats the annotation is still a description"""
+    import json
+    import rel
+    from common import harness
+    cases = {
+        "tag_named_like_path": 'JSIGHT 0.3\nTAG @zcats // Cats\n  Description\n    about cats\nGET /zcats/{id}\n  Tags @zcats\n  200 any\nPOST /zcats\n  200 any\nPUT /zdogs\n  Tags @zcats\n  200 any\n',
+        "tag_named_like_path_declared_last": 'JSIGHT 0.3\nGET /zcats/{id}\n  Tags @zcats\n  200 any\nPOST /zcats\n  200 any\nTAG @zcats // Cats\n  Description\n    about cats\n',
+        "description_equals_annotation": 'JSIGHT 0.3\nGET /zsame // List the  cats\n  Description\n    List the cats\n  200 any\nURL /zr\n  Protocol json-rpc-2.0\n  Method zm // Ping\n    Description\n    (\n      Ping\n    )\n    Result\n    {}\n',
+    }
+    obs = harness("run", [rel.case("dt_" + k, t) for k, t in cases.items()])
+    for k, t in cases.items():
+        o = obs["dt_" + k]
+        chk.evaluations += 1
+        chk.traces += 1
+        chk.nontrivial.add("declared:" + k)
+        bad = None
+        if o["outcome"] != "ok":
+            bad = "not accepted: %s" % rel.describe(o)
+        else:
+            cat = json.loads(o["json"])
+            if k.startswith("tag_named"):
+                tg = (cat.get("tags") or {}).get("@zcats") or {}
+                ids = sorted(i for g in tg.get("interactionGroups") or [] for i in g.get("interactions") or [])
+                want = sorted(i for i in cat["interactions"] if "zcats" in i or "zdogs" in i)
+                if tg.get("title") != "Cats" or tg.get("description") != "about cats" or ids != want:
+                    bad = "declared tag @zcats: title %r, description %r, interactions %s (declared: 'Cats', 'about cats', %s)" % (tg.get("title"), tg.get("description"), ids, want)
+            else:
+                a, b = cat["interactions"]["http GET /zsame"], cat["interactions"]["json-rpc-2.0 zm /zr"]
+                if a.get("description") != "List the cats" or b.get("description") != "Ping" or a.get("annotation") != "List the cats":
+                    bad = "descriptions %r / %r, annotation %r (declared: 'List the cats', 'Ping', 'List the cats')" % (a.get("description"), b.get("description"), a.get("annotation"))
+        if bad:
+            sig = {"what": "declared thing lost", "variant": k}
+            chk.violation("%s: %s | document:\n%s" % (k, bad, t), {"kind": "declared", "file": t, "signature": sig}, sig)
+
+
 def unused_macro_contributes_nothing(chk):
     """the catalog contains what the document declares and nothing else: a MACRO that is never pasted - whatever it holds -
     leaves the catalog as it is without it (two real runs)"""
@@ -201,6 +238,7 @@ def main(tier):
     chk.extra["documents_compared"] = total
     type_entry_users(chk)
     unused_macro_contributes_nothing(chk)
+    declared_things_stay(chk)
     chk.rule = ("documents = random abstract API models generated by the JSightApi spec (info, servers, types in four "
                 "notations with references/arrays/enums/allOf, enums, tags, URL blocks, path-bearing methods, JSON-RPC "
                 "blocks, queries, requests and responses in param/inline/child-Body form, headers, Path declarations), "
